@@ -24,9 +24,28 @@ def _run(payload, sub):
     spec = sc['spec']
     import copy
 
+    rewindable = []
+
+    class Rewindable:
+        # a lawful iterator (once exhausted it stays exhausted) that the caller rewinds before the same Flow object runs again,
+        # the way one would seek(0) a file; every pass hands out fresh row objects
+        def __init__(self, t):
+            self.t = t
+            self.g = iter(T.rows_of(t))
+            rewindable.append(self)
+
+        def rewind(self):
+            self.g = iter(T.rows_of(self.t))
+
+        def __iter__(self):
+            return self
+
+        def __next__(self):
+            return next(self.g)
+
     def src_link(t, name):
         desc = {'resources': [{'name': name, 'path': name + '.csv', 'profile': 'tabular-data-resource', 'schema': {'fields': [dict(f) for f in t['fields']]}}]}
-        return DF.load((desc, [iter(T.rows_of(t))]), strip=False)
+        return DF.load((desc, [Rewindable(t) if sc.get('twice') else iter(T.rows_of(t))]), strip=False)
     links = [src_link(sc['source'], 'src')]
     if spec.get('target_key') is not None:
         links += [src_link(sc['target'], 'tgt'),
@@ -45,8 +64,15 @@ def _run(payload, sub):
                     row['b1'] = None
                 yield row
         links.append(edit)
-    ds = DF.Flow(*links).datastream()
+    flow = DF.Flow(*links)
+    ds = flow.datastream()
     rows = [list(r) for r in ds.res_iter]
+    if sc.get('twice'):
+        # the same Flow object runs again: the second result is the one that is judged
+        for it in rewindable:
+            it.rewind()
+        ds = flow.datastream()
+        rows = [list(r) for r in ds.res_iter]
     names = [r.name for r in ds.dp.resources]
     fields = {r.name: [f['name'] for f in r.descriptor['schema']['fields']] for r in ds.dp.resources}
     return {'names': names, 'rows': rows_enc(rows), 'fields': fields, 'kv_ops': kv['n']}
@@ -80,7 +106,7 @@ class C11(Prop):
                    'values are observed through datastream() (raw), the typing of aggregate fields in the schema is C02\'s business']
     REAL_VS_STUB = {'real': ['dataflows join', 'kvfile + sqlite'], 'stub': ['KVFile twin: cache-size knob and operation counter only']}
     PROBES = ['mode-inner', 'mode-half-outer', 'mode-full-outer', 'dedup-mode', 'null-key', 'duplicate-source-key', 'unmatched-target-row', 'unmatched-source-key', 'key-format-string',
-              'key-row-number', 'wildcard-mapping', 'maps-onto-existing-target-column', 'falsy-first-value', 'spill-path (cache smaller than keys)', 'big-index (>10240 keys)', 'source-kept', 'kept-source-edited-later', 'equal-numbers-rendering-differently-as-keys', 'semi-join (no fields mapped)'] + ['agg:' + a for a in NUM_AGGS + ANY_AGGS]
+              'key-row-number', 'wildcard-mapping', 'maps-onto-existing-target-column', 'falsy-first-value', 'spill-path (cache smaller than keys)', 'big-index (>10240 keys)', 'source-kept', 'kept-source-edited-later', 'equal-numbers-rendering-differently-as-keys', 'semi-join (no fields mapped)', 'second-run-of-the-same-flow'] + ['agg:' + a for a in NUM_AGGS + ANY_AGGS]
     TIERS = {'quick': dict(runs=3000, wall=100, run_wall=300),
              'thorough': dict(runs=40000, wall=1700, run_wall=600)}
     SHRINK_FROZEN = ('fields_',)
@@ -152,7 +178,8 @@ class C11(Prop):
         # quadratic one-to-one matching: the big index is exercised through the ordered target lookups of inner / half-outer)
         spec = {'source_key': sk, 'target_key': None if dedup else tk, 'fields': fields, 'mode': rng.choice(['inner', 'half-outer', 'half-outer', 'full-outer'] if not big else ['inner', 'half-outer']),
                 'source_delete': rng.random() < 0.7}
-        return {'source': source, 'target': target, 'spec': spec, 'post_edit': (not dedup) and (not spec['source_delete']) and rng.random() < 0.6, 'kv': rng.sample([1, 2, 3, 7, 10240], 2) if not big else [10240, 10240]}
+        twice = rng.random() < 0.12 and not big
+        return {'twice': twice, 'source': source, 'target': target, 'spec': spec, 'post_edit': (not dedup) and (not spec['source_delete']) and rng.random() < 0.6, 'kv': rng.sample([1, 2, 3, 7, 10240], 2) if not big else [10240, 10240]}
 
     def _val(self, rng, t):
         import decimal
@@ -291,6 +318,8 @@ class C11(Prop):
             ctx.probe('big-index (>10240 keys)')
         if isinstance(spec['source_key'], str):
             ctx.probe('key-row-number' if '#' in spec['source_key'] else 'key-format-string')
+        if sc.get('twice'):
+            ctx.probe('second-run-of-the-same-flow')
         if not spec['fields']:
             ctx.probe('semi-join (no fields mapped)')
         if '*' in spec['fields']:
